@@ -26,6 +26,7 @@ import (
 var c05Templates = []string{
 	"A1", "A3", "Abig", "Agap", "Arepeat", "Alow", "Anoncons", "Aempty",
 	"Dpre1", "DpreK", "Dsuf1", "DsufK", "Dall", "Dmid", "Dbelow", "Dabove", "Dinv", "Reopen",
+	"DallMax", "DsufMax",
 }
 
 func init() {
@@ -90,6 +91,19 @@ func c05Instantiate(t string, l *model.Log, start uint64, rng *rand.Rand, tag st
 		return gen.Op{Kind: "delete", Min: mn, Max: l.Last + 10}
 	case "Dall":
 		return gen.Op{Kind: "delete", Min: l.First, Max: l.Last}
+	case "DallMax":
+		// everything, named the way "from here to the end of time" is usually written
+		mn := l.First
+		if rng.Intn(2) == 0 {
+			mn = 0
+		}
+		return gen.Op{Kind: "delete", Min: mn, Max: ^uint64(0) - uint64(rng.Intn(2))}
+	case "DsufMax":
+		mn := l.Last
+		if mn > l.First+1 {
+			mn -= uint64(rng.Intn(2))
+		}
+		return gen.Op{Kind: "delete", Min: mn, Max: ^uint64(0)}
 	case "Dmid":
 		return gen.Op{Kind: "delete", Min: l.First + 1, Max: l.Last - 1}
 	case "Dbelow":
@@ -302,7 +316,7 @@ func shapeOf(l *model.Log) string {
 }
 
 func runC05(c *evid.Ctx) {
-	c.Rule("operation sequences over an 18-template alphabet (appends: 1, 3, larger than a segment - one in six of those around or above the 64 KiB pooled read buffer -, gap, repeat, lower, internally non-consecutive, empty; deletes: prefix, suffix, all, strict middle, disjoint, inverted; reopen), exhaustive to a depth bound for each (segment size, start index) geometry and seeded random beyond; after EVERY step the full observable state (First, Last, GetLog of [first-2,last+2] + {0,1,max} + every index ever written) is compared with the model, in the live WAL and in a reopened copy of the directory; a third of the sequences run in pending-rotation mode (the background rotation is held queued so that the next call, or Close, always gets the write lock first, and the directory copy is reopened twice); non-trivial = distinct (model-state shape, template) pairs exercised",
+	c.Rule("operation sequences over a 20-template alphabet (appends: 1, 3, larger than a segment - one in six of those around or above the 64 KiB pooled read buffer -, gap, repeat, lower, internally non-consecutive, empty; deletes: prefix, suffix, all, all / suffix with max = MaxUint64 (or MaxUint64-1), strict middle, disjoint, inverted; reopen), exhaustive to a depth bound for each (segment size, start index) geometry and seeded random beyond; after EVERY step the full observable state (First, Last, GetLog of [first-2,last+2] + {0,1,max} + every index ever written) is compared with the model, in the live WAL and in a reopened copy of the directory; a third of the sequences run in pending-rotation mode (the background rotation is held queued so that the next call, or Close, always gets the write lock first, and the directory copy is reopened twice); non-trivial = distinct (model-state shape, template) pairs exercised",
 		"steps", "state_op_pairs")
 	c.Assume("index 0 is never used as a raft index (LastIndex()==0 means empty)", "simfs.Strict behaviour (this check does not crash anything)")
 	depth := 3
@@ -320,7 +334,7 @@ func runC05(c *evid.Ctx) {
 	} else {
 		// quick: full alphabet at depth 2 for all geometries, depth 3 over a reduced alphabet
 		depth = 3
-		tmpl = []string{"A1", "A3", "Abig", "Agap", "Anoncons", "Dpre1", "DpreK", "Dsuf1", "DsufK", "Dall", "Dmid", "Reopen"}
+		tmpl = []string{"A1", "A3", "Abig", "Agap", "Anoncons", "Dpre1", "DpreK", "Dsuf1", "DsufK", "Dall", "DallMax", "Dmid", "Reopen"}
 	}
 	type job struct {
 		geo  c05Geo
